@@ -141,7 +141,22 @@ func normMsgNoNext(m *SX) string {
 	return n.String()
 }
 
-func scriptFor(r *Rng, n int) []byte { return r.Bytes(n) }
+// scriptFor: what the random source will deliver (padding, IV): mostly random octets, sometimes all zeros / all ones
+// (an IV or padding of a special shape must change nothing)
+func scriptFor(r *Rng, n int) []byte {
+	b := r.Bytes(n)
+	switch r.Intn(12) {
+	case 0:
+		for i := range b {
+			b[i] = 0xff
+		}
+	case 1:
+		for i := range b {
+			b[i] = 0
+		}
+	}
+	return b
+}
 
 type skCase struct {
 	s      suite
